@@ -17,6 +17,7 @@ func init() {
 			{Name: "sorter/exhaustive", Count: func(tier string) int { return seq.C09Blocks(tier) }, Run: seq.RunC09Exhaustive, Exhaustive: true, CPULimit: 120},
 			{Name: "sorter/random", Count: core.FixedCount(20000, 200000), Run: func(c *core.Ctx, idx int) { seq.RunC09Random(c) }, CPULimit: 60},
 			{Name: "sorter/reused-instance", Count: core.FixedCount(15000, 150000), Run: func(c *core.Ctx, idx int) { seq.RunC09Reused(c) }},
+			{Name: "collections/sort-sequences", Count: core.FixedCount(8000, 120000), Run: func(c *core.Ctx, idx int) { seq.RunC09Sequences(c) }},
 			{Name: "sorter/default-ranker", Count: core.FixedCount(20000, 200000), Run: func(c *core.Ctx, idx int) { seq.RunC09Default(c) }},
 		},
 	})
